@@ -41,7 +41,7 @@ Proof. reflexivity. Qed.
 
 Lemma layout_world_proof U K ss cs :
   calculate_world_server_proof U K ss cs =
-  sha1 (lay_vanilla_header_internal_calculate_world_server_proof_0 U K (le32 ss) (le32 cs)).
+  sha1 (lay_vanilla_header_internal_calculate_world_server_proof_0 U K ss cs).
 Proof. reflexivity. Qed.
 
 Print Assumptions layout_client_proof.
